@@ -1,12 +1,43 @@
-// Package c03: correspondence harness of C03 (stub: replaced when C03 is built).
+// Package c03: derived Compare vs the model of plugin/compare and the encoding order.
 package c03
 
 import (
 	"fmt"
+	"strings"
 
+	"verifharness/internal/ga"
 	"verifharness/internal/hx"
 )
 
 func Run(cfg hx.Config) (*hx.Meta, error) {
-	return nil, fmt.Errorf("C03: harness not built yet")
+	ntriples := 40
+	if cfg.Tier == "thorough" {
+		ntriples = 300
+	}
+	vr := &ga.ValueRun{
+		Prop: "C03", Calls: []ga.Call{ga.CallCmp, ga.CallCmpC, ga.CallEq}, SupObs: "sup-cmp", PoolQuick: 12, PoolThorough: 20, WithMethods: true,
+		Cases: func(idx int, t *ga.Type, vals []*ga.Val, r *hx.Rand, out *strings.Builder) {
+			for xi, x := range vals {
+				for yi, y := range vals {
+					op := "cmp"
+					if (xi+yi)%5 == 0 {
+						op = "cmpc"
+					}
+					fmt.Fprintf(out, "%s %d %s %s\n", op, idx, x.Sexp(), y.Sexp())
+				}
+			}
+			// cross-check with the generated Equal on a diagonal band (Compare == 0 <=> Equal)
+			for xi, x := range vals {
+				for _, d := range []int{0, 1, 2} {
+					y := vals[(xi+d)%len(vals)]
+					fmt.Fprintf(out, "cmpeq %d %s %s\n", idx, x.Sexp(), y.Sexp())
+				}
+			}
+			for k := 0; k < ntriples && len(vals) > 1; k++ {
+				x, y, z := hx.Pick(r, vals), hx.Pick(r, vals), hx.Pick(r, vals)
+				fmt.Fprintf(out, "cmp3 %d %s %s %s\n", idx, x.Sexp(), y.Sexp(), z.Sexp())
+			}
+		},
+	}
+	return vr.Run(cfg)
 }
